@@ -33,16 +33,18 @@ ASSUMPTIONS = ['a condition is judged only when the reported value is beyond the
 FLOORS = {'quick': {'conclusive': 80, 'distinct_nontrivial': 40,
                     'counters': {'instants_judged': 1000, 'control_instants_definitely_true': 1600, 'commanded_closed_checked': 800,
                                  'commanded_open_checked': 400, 'truth_changes': 250, 'partial_steps_at_thresholds': 250,
-                                 'pressure_controls_true': 150, 'tank_controls_true': 1200, 'overshoot_checked': 20}},
+                                 'pressure_controls_true': 150, 'tank_controls_true': 1200, 'overshoot_checked': 20,
+                                 'outranked_rival_instants': 150}},
           'thorough': {'conclusive': 1200, 'distinct_nontrivial': 600,
                        'counters': {'instants_judged': 16000, 'control_instants_definitely_true': 26000, 'commanded_closed_checked': 13000,
                                     'commanded_open_checked': 6500, 'truth_changes': 4000, 'partial_steps_at_thresholds': 4000,
-                                    'pressure_controls_true': 2500, 'tank_controls_true': 20000, 'overshoot_checked': 300}}}
+                                    'pressure_controls_true': 2500, 'tank_controls_true': 20000, 'overshoot_checked': 300,
+                                    'outranked_rival_instants': 2000}}}
 CASE_TIMEOUT = {'quick': 300, 'thorough': 600}
 
 
 def n_cases(tier):
-    return 150 if tier == 'quick' else 2500
+    return 320 if tier == 'quick' else 4500
 
 
 def rig_spec(rng, tier):
@@ -111,6 +113,25 @@ def rig_spec(rng, tier):
         if rng.random() < 0.3:      # the same kind of threshold expressed on the tank head
             add(source=tk['name'], sattr='head', op='>', threshold=gnet._round(tk['elevation'] + hi, 3), target='P12', attr='status', value='CLOSED')
             add(source=tk['name'], sattr='head', op='<', threshold=gnet._round(tk['elevation'] + lo, 3), target='P12', attr='status', value='OPEN')
+    if rng.random() < 0.45:
+        # a throttle valve with a by-pass: setting controls and status controls on the same valve, with explicit priorities
+        spec['junctions'].append({'name': 'J3', 'elevation': gnet._round(rng.uniform(0, 10), 3),
+                                  'demands': [{'base': gnet._round(qd * 0.3, 5), 'pattern': 'DP', 'category': None}], 'coordinates': [300, 0]})
+        spec['valves'].append({'name': 'V1', 'start': 'J2', 'end': 'J3', 'diameter': 0.2, 'type': 'TCV', 'minor_loss': 0.0,
+                               'setting': rng.choice([2.0, 10.0, 50.0]), 'status': 'ACTIVE'})
+        spec['pipes'].append({'name': 'PB', 'start': 'J2', 'end': 'J3', 'length': 400.0, 'diameter': 0.1, 'roughness': 100.0, 'minor_loss': 0.0,
+                              'status': 'OPEN', 'cv': False})
+        tk = spec['tanks'][0]
+        span = tk['max_level'] - tk['min_level']
+        prios = rng.sample([0, 1, 2, 3, 4, 5, 6], 3)
+        for k_ in range(rng.randint(2, 3)):
+            th = gnet._round(tk['min_level'] + rng.uniform(0.15, 0.9) * span, 3)
+            if k_ == 0 or rng.random() < 0.4:
+                add(source=tk['name'], sattr='level', op=rng.choice(['<', '>']), threshold=th, target='V1', attr='setting',
+                    value=rng.choice([1.0, 20.0, 150.0]), priority=prios[k_])
+            else:
+                add(source=tk['name'], sattr='level', op=rng.choice(['<', '>']), threshold=th, target='V1', attr='status',
+                    value=rng.choice(['CLOSED', 'CLOSED', 'OPEN']), priority=prios[k_])
     if rng.random() < 0.5:
         pth = gnet._round(rng.uniform(25, 45), 2)
         tgt = 'PR2' if len(spec['reservoirs']) > 1 else 'P12b'
@@ -162,6 +183,7 @@ def run_case(c, rng):
     times = [int(t) for t in P.index]
     tanks = {t['name']: t for t in spec['tanks']}
     links = {l['name']: l for l in spec['pipes'] + spec['pumps'] + spec['valves']}
+    valve_names = set(v['name'] for v in spec['valves'])
     hyd = spec['options']['hydraulic_timestep']
     truth_hist = {cs['name']: [] for cs in conds}
     n_changes = 0
@@ -200,12 +222,26 @@ def run_case(c, rng):
             c.count('tank_controls_true' if cs['source'] in tanks else 'pressure_controls_true')
             tgt, attr, want = cs['target'], cs['attr'], cs['value']
             # (ii) another control that may hold commands something else
-            rivals = [o for o in conds if o is not cs and o['target'] == tgt and o['attr'] == attr and o['value'] != want and state[o['name']][0] != 'F']
+            # A control of strictly lower priority excuses nothing.  On a valve a setting control also commands the status Active.
+            is_valve = tgt in valve_names
+            prio = cs.get('priority', 3)
+
+            def conflicts(o):
+                if o is cs or o['target'] != tgt or state[o['name']][0] == 'F' or o.get('priority', 3) < prio:
+                    return False
+                if o['attr'] == attr:
+                    return o['value'] != want
+                return is_valve and attr == 'status' and o['attr'] == 'setting' and want != 'ACTIVE'
+            rivals = [o for o in conds if conflicts(o)]
             if rivals:
                 c.count('skipped_conflicting_controls')
                 continue
+            if any(o is not cs and o['target'] == tgt and state[o['name']][0] != 'F' and o.get('priority', 3) < prio and
+                   (o['attr'] != attr or o['value'] != want) for o in conds):
+                c.count('outranked_rival_instants')
             if attr == 'status':
-                have = 'CLOSED' if int(S[tgt].values[i]) == 0 else 'OPEN'
+                sv = int(S[tgt].values[i])
+                have = 'CLOSED' if sv == 0 else ('ACTIVE' if (is_valve and sv == 2) else 'OPEN')
             else:
                 have = float(SET[tgt].values[i])
             ok = (have == want) if attr == 'status' else abs(have - want) <= 1e-9 * max(1.0, abs(want))
